@@ -893,3 +893,25 @@ Example C01_repaired_engine_on_the_refuting_histories :
   same_result_pb uF9 (brD4 (wD4 1) (brD4 (wD4 2) (brD4 (wD4 1) (p_empty uF9)))) (brD4 (wD4 1) (p_empty uF9)) = true /\
   is_succ (stt (pbase (brF9 wF9b (brF9 wF9a (p_empty uF9)))) 4) = false.
 Proof. vm_compute. repeat split; reflexivity. Qed.
+
+(* ------------------------------------------------------------------------------------------ *)
+(* Dynamic plans: the hypothesis "the last build ends finished" can be evaluated               *)
+(* ------------------------------------------------------------------------------------------ *)
+From SV Require Import model.EnginePlanCheck proofs.EnginePlanCheckProofs.
+
+Theorem C01_plan_finished_check_sound :
+  forall run plan (U : universe) (y : psys),
+    finished_pb run plan U y = true -> Finished_p run plan U y.
+Proof. exact finished_pb_sound. Qed.
+
+(* For a concrete history (worlds as source tables, the last one [w]) whose final state passes
+   the check, the engine as the code has it ends with the result of the build of [w] on nothing.
+   harness/c01_plan.py evaluates [final_finished_p] for every generated history and, when it is
+   true, requires the real incremental result to equal the real from-scratch result. *)
+Theorem C01_plan_checked_history_equals_scratch :
+  forall (tab : list (N * N * list N)) (U : universe) (ws : list (list (N * N))) (w : list (N * N)),
+    wf_u U = true -> ustat_later_b U = true ->
+    final_finished_p tab U (ws ++ [w]) = true ->
+    same_result_p U (final_hist_p tab U (ws ++ [w]))
+                  (build_world_p mix_run (plan_tab tab) U (src_of w, src_of []) (p_empty U)).
+Proof. exact checked_history_equals_scratch. Qed.
